@@ -135,8 +135,19 @@ def inline_locals(fnode, expr, depth=4):
                     for n in ast.walk(t):
                         if isinstance(n, ast.Name) and isinstance(n.ctx, ast.Store):
                             multi.add(n.id)
+                    b_ = t
+                    while isinstance(b_, (ast.Subscript, ast.Attribute)):
+                        b_ = b_.value
+                    if isinstance(b_, ast.Name) and isinstance(t, ast.Subscript):
+                        multi.add(b_.id)  # L[i] = ...: the container changes after its definition
         elif isinstance(s, (ast.AugAssign,)) and isinstance(s.target, ast.Name):
             multi.add(s.target.id)
+        elif isinstance(s, ast.AugAssign) and isinstance(s.target, ast.Subscript):
+            b_ = s.target
+            while isinstance(b_, (ast.Subscript, ast.Attribute)):
+                b_ = b_.value
+            if isinstance(b_, ast.Name):
+                multi.add(b_.id)
         elif isinstance(s, (ast.For, ast.comprehension)):
             for n in ast.walk(s.target):
                 if isinstance(n, ast.Name):
